@@ -73,7 +73,7 @@ STEP_PHASES = {"allocate", "cost", "perform", "record-workflow", "record-organiz
 _CACHE = {}
 
 
-def loop_paths(ctx, heap=None, collections=None, havoc_on_call=True, bind=None, key=None):
+def loop_paths(ctx, heap=None, collections=None, havoc_on_call=True, bind=None, key=None, inline=None, max_depth=2):
     """Paths through one iteration: list of dicts {state, exit, trace, phases:[(phase, event)]}."""
     ck = (id(ctx.repo), key)
     if key is not None and ck in _CACHE:
@@ -83,7 +83,11 @@ def loop_paths(ctx, heap=None, collections=None, havoc_on_call=True, bind=None, 
     def pol(call, callee, depth):
         return callee.cls == PROJECT and not _has_loop(callee) and callee.name not in ("initialize",)
 
-    I = mk_interp(ctx, inline=pol, collections=collections or {}, havoc_on_call=havoc_on_call, integral={"self.time"}, max_depth=2)
+    base_pol = pol
+    if inline is not None:
+        def pol(call, callee, depth):  # noqa: F811
+            return base_pol(call, callee, depth) or inline(call, callee, depth)
+    I = mk_interp(ctx, inline=pol, collections=collections or {}, havoc_on_call=havoc_on_call, integral={"self.time"}, max_depth=max_depth)
     st = State()
     st.env["self"] = Obj("self", PROJECT)
     ft = ctx.types.ftypes(f)
